@@ -299,10 +299,12 @@ def gen_cases(seed, lo, hi, tier):
         ops.append({"name": "rechunker", "compressor": rng.choice(COMP + (None,)), "rechunk": rng.random() < 0.7,
                     "target_rows": rng.choice([None, 1, 3, 100]), "replace": rng.random() < 0.4,
                     "parallel": rng.choice([False, False, "thread"] + ([] if (q and idx % 8) else ["process"]))})
-        ops.append({"name": "rechunk_on_load", "processor": rng.choice(["single_thread", "threaded_mailbox"]),
-                    "pool": rng.random() < 0.5, "src_rows": rng.choice([1, 2, 3]), "lazy": rng.random() < 0.5})
-        if ops[-1]["processor"] == "single_thread":
-            ops[-1]["pool"] = False
+        for _ in range(2 if q else 4):
+            # small source sizes: one stored chunk then needs several cuts
+            ops.append({"name": "rechunk_on_load", "processor": rng.choice(["single_thread", "threaded_mailbox"]),
+                        "pool": rng.random() < 0.5, "src_rows": rng.choice([1, 1, 2, 3]), "lazy": rng.random() < 0.5})
+            if ops[-1]["processor"] == "single_thread":
+                ops[-1]["pool"] = False
         parts = consecutive_partitions(nchunks) if nchunks <= 5 else None
         if parts is not None:
             chosen = parts if not q else rng.sample(parts, min(2, len(parts)))
